@@ -161,6 +161,11 @@ func (p polSpec) dslMax(target string, seq, retryMax int) string {
 	fmt.Fprintf(&b, "ingress   { listen \"127.0.0.1:%d\" }\n", base)
 	fmt.Fprintf(&b, "pull_api  { listen \"127.0.0.1:%d\"  auth token \"raw:g1\" }\n", base+1)
 	fmt.Fprintf(&b, "admin_api { listen \"127.0.0.1:%d\" }\n", base+2)
+	if p.Block != nil { // part (F): the block written in another legal form (forms_test.go)
+		p.Block.write(&b, p, retryMax)
+		fmt.Fprintf(&b, "/f { deliver %q {} }\n", target)
+		return b.String()
+	}
 	b.WriteString("defaults {\n  egress {\n")
 	fmt.Fprintf(&b, "    https_only %s\n    redirects %s\n    dns_rebind_protection %s\n", onoff(p.HTTPSOnly), onoff(p.Redirects), onoff(p.Rebind))
 	dslRules(&b, "allow", p.Allow, p.Form)
@@ -185,6 +190,9 @@ func (p polSpec) flags() string {
 }
 
 func (p polSpec) label() string {
+	if p.Block != nil {
+		return fmt.Sprintf("%s allow=%v deny=%v written as [%s]", p.flags(), p.Allow, p.Deny, p.Block)
+	}
 	return fmt.Sprintf("%s allow=%v deny=%v", p.flags(), p.Allow, p.Deny)
 }
 
@@ -1222,6 +1230,19 @@ func TestCheck(t *testing.T) {
 		}
 		areals[i] = real
 	}
+	// part (F): the egress block in every legal form (forms_test.go); compiled like the base policies
+	fpols := formPolicies(r.Thorough())
+	freals := make([]dispatcher.EgressPolicy, len(fpols))
+	for i, p := range fpols {
+		real, _, err := realPolicy(p, "https://name.example/hook")
+		if err != nil {
+			r.Infra("egress block form %s (%s) does not boot: %v", p.Block, p.label(), err)
+			r.Finish()
+		}
+		rep.formCompare(p, real)
+		r.Add("form_policies", 1)
+		freals[i] = real
+	}
 	jobs := make(chan int)
 	stats := make([]*wstats, workers)
 	var done, incomplete int64
@@ -1236,6 +1257,8 @@ func TestCheck(t *testing.T) {
 				var ok bool
 				if i < len(pols) {
 					ok = time.Now().Before(deadline) && rep.enumeratePolicy(i, pols[i], reals[i], dom, st, deadline)
+				} else if k := i - len(pols) - len(lpols) - len(apols); k >= 0 {
+					ok = time.Now().Before(deadline) && rep.enumeratePolicy(i, fpols[k], freals[k], dom, st, deadline)
 				} else if k := i - len(pols) - len(lpols); k >= 0 {
 					ok = time.Now().Before(deadline) && rep.enumerateAnswerPolicy(i, apols[k], areals[k], r.Thorough(), st, deadline)
 				} else {
@@ -1259,6 +1282,9 @@ func TestCheck(t *testing.T) {
 	}
 	for i := range apols {
 		jobs <- len(pols) + len(lpols) + i
+	}
+	for i := range fpols {
+		jobs <- len(pols) + len(lpols) + len(apols) + i
 	}
 	close(jobs)
 	wg.Wait()
@@ -1293,7 +1319,7 @@ func TestCheck(t *testing.T) {
 	}
 	rep.flush()
 	if incomplete > 0 {
-		r.NotExhaustive(fmt.Sprintf("wall budget reached: %d of %d policies enumerated completely", done, len(pols)+lbooted+len(apols)))
+		r.NotExhaustive(fmt.Sprintf("wall budget reached: %d of %d policies enumerated completely", done, len(pols)+lbooted+len(apols)+len(fpols)))
 	}
 	rep.mu.Lock()
 	if len(rep.seen) > 0 {
@@ -1319,7 +1345,11 @@ func TestCheck(t *testing.T) {
 	}
 	r.Set("answer_domains", map[string]any{"address_pool": apool, "sequence_lengths": fmt.Sprintf("1..%d", answerMaxLen(r.Thorough())), "answers": answerCount[answerMaxLen(r.Thorough())],
 		"policies": len(apols), "allow": []string{"none", ansNet6, ansNet4, "10.0.0.0/8", ansHost + " *." + ansHost}, "deny": []string{"none", ansNet6, ansNet4, "fc00::/7", "10.0.0.0/8"}, "dns_rebind_protection": "on, off"})
+	r.Set("form_domains", map[string]any{"switches": "(absent | on | off)^3 for https_only, redirects, dns_rebind_protection; an absent switch has its documented default (on, off, on)",
+		"rule_placements": runner.Pick(r, 3, 9), "orders": []string{"switches, allow, deny", "deny, allow, switches reversed"}, "value_spellings": []string{"on/off", "true/false", "1/0", "quoted", "{$UNSET:default} placeholder"},
+		"block_absent": []string{"defaults section without egress block", "no defaults section"}, "policies": len(fpols)})
 	r.Set("rule_parts", map[string]string{
+		"F": "egress block forms: every policy of form_domains compiled from Hookaidofile text; the compiled switches must be what is written, else the documented default; then the same complete URL x resolver x redirect product as the base policies, judged by the reference built from those effective values",
 		"A": "resolver answer sets: every sequence of 1..4 (thorough 1..5) addresses over the pool of answer_domains (public IPv6 x2, public IPv4 in 4-byte and IPv4-mapped form, unique-local and link-local IPv6, private IPv4 in both forms) as the answer for the delivery host, dns_rebind_protection on/off x allow x deny over IPv6/IPv4 networks and a host rule, as direct delivery and as redirect target; judged by the reference on the answer as given",
 		"S": "schedules: 2 (thorough also 3) overlapping Deliver calls on one HTTPDeliverer for every multiset of deliveries over the URL alphabet of concurrent_deliveries (same host other scheme/port/path/spelling, sub-domain, same address, name with a private address, unresolvable name, IP literals, redirect chains into related URLs) under each of its policies, every interleaving of the deliverer's lock/atomic/sync.Map operations and of the harness points inside the DNS lookup and inside RoundTrip: nothing sent to a URL the reference forbids, every delivery ends exactly as it ends alone on a fresh deliverer, every delivery finishes; side condition: free-running -race pass of the same thread bodies",
 		"L": "rule lists: every list policy of list_domains compiled from Hookaidofile text; every host derived from every entry (apex, sub-domain, two-level sub-domain, suffix without dot boundary, prefix trap, parent, upper-case/trailing-dot spellings; first/last/below/above/base address of every network as literal, IPv4-mapped literal and as resolver answer alone and mixed) as direct delivery and as redirect target; judged by the reference on the entries as written",
